@@ -14,6 +14,9 @@ type G struct {
 	allowArrays bool // array values
 	big         bool
 	inMap       int
+	// wide attribute lists of this many entries on the spans of the current batch (0 = off)
+	wideN    int
+	wideVals []uint64
 	// trigger switches
 	valueless     bool
 	droppedCounts bool
@@ -540,6 +543,26 @@ func (g *G) span() Span {
 	if g.r.Chance(2, 3) {
 		s.Attrs = g.attrs()
 	}
+	if g.wideN > 0 && g.r.Chance(3, 4) {
+		// a WIDE attribute list with the same keys in consecutive spans and one value that
+		// differs, preferably the last (the values-only multimap encoding and its change mask
+		// around 62 / 63 / 64 / 65 entries)
+		if g.wideVals == nil {
+			for i := 0; i < g.wideN; i++ {
+				g.wideVals = append(g.wideVals, uint64(i))
+			}
+		}
+		j := g.wideN - 1
+		if g.r.Chance(1, 3) {
+			j = g.r.Intn(g.wideN)
+		}
+		g.wideVals[j]++
+		s.Attrs = nil
+		for i, v := range g.wideVals {
+			s.Attrs = append(s.Attrs, KVp{fmt.Sprintf("w%03d", i), AV{K: KInt, I: v}})
+		}
+		return s
+	}
 	if g.r.Chance(1, 4) {
 		// the same attribute slot holding +0.0 and -0.0 in consecutive spans
 		z := AV{K: KDouble}
@@ -628,6 +651,10 @@ func (g *G) mapFirstAttrs() Attrs {
 }
 
 func (g *G) traces() Traces {
+	g.wideN, g.wideVals = 0, nil
+	if g.r.Chance(1, 10) {
+		g.wideN = []int{62, 63, 64, 65, 64, 128}[g.r.Intn(6)]
+	}
 	nRes, nSc := 1+g.r.Intn(3), 1+g.r.Intn(3)
 	type resID struct {
 		URL     string
